@@ -3,7 +3,7 @@ Import ListNotations.
 From BB Require Import BN Brute SpaceFacts TrapFacts PercolateFacts AttractorFacts Diagram Invariants Checks Filter
   Strict PetriNet Control Meta FilterFacts PetriNetFacts TrappistFacts DiagramStruct DiagramSem1 DiagramCache
   DiagramDepth DiagramComplete Termination ControlFacts MetaFacts Candidates StrictFacts MinExpandFacts CandidatesFacts SymbolicTest SymbolicTestFacts Signed ReductionFacts ControlFacts2 Main Blocks BlocksFacts ObsFacts OwnerFacts CandidatesTerm
-  PartialOwner BlockMath BlockComplete ASeeds ASeedsFacts LogChecks SkipRule SkipRuleFacts Names NamesFacts Perm PermFacts SCC SCCFacts."""
+  PartialOwner BlockMath BlockComplete ASeeds ASeedsFacts LogChecks SkipRule SkipRuleFacts Names NamesFacts Perm PermFacts SCC SCCFacts SCCStruct ControlFacts3."""
 
 EX_NET = """
 (* non-vacuity: two bistable switches; x0'=x1, x1'=x0, x2'=x3, x3'=x2 *)
@@ -94,8 +94,10 @@ dfs_complete need only the invariants that run_invariants establishes), for mini
 (expand_min_exact / expand_min_complete), for completion by skip_remaining, for source-block expansion from a fresh
 diagram with every option combination and ANY tape (expand_block_MinFound: independence of minimal source blocks,
 BlockMath.min_trap_in_block / same_child_same_block) and for attractor-seed expansion from any plainly reached diagram
-(expand_aseeds_MinFound).  PARTIAL: the source-SCC strategy is decided by the comparison of minimal_trap_spaces()
-with Brute.min_traps_b (exact by min_traps_b_spec) only.""",
+(expand_aseeds_MinFound).  The source-SCC strategy is modelled (SCC.v, replayed id by id): its components are the closed,
+strongly connected, pairwise disjoint sets of source_sccs_spec, every node it creates is a trap space of the network
+(graft_trap, expand_scc_TrapNodes) and it only adds nodes (expand_scc_grows).  PARTIAL: that it misses no minimal trap
+space is decided by the comparison of minimal_trap_spaces() with Brute.min_traps_b (exact by min_traps_b_spec).""",
  theorems=[("bfs_complete", "bfs_complete", None), ("dfs_complete", "dfs_complete", None),
            ("leaves_are_min_traps", "hierarchy_leaves", None), ("min_traps_spec", "min_traps_b_spec", "the oracle for minimal trap spaces is exact"),
            ("min_trap_exists", "min_trap_exists", None), ("min_trap_closed", "min_trap_closed", None),
@@ -115,7 +117,12 @@ with Brute.min_traps_b (exact by min_traps_b_spec) only.""",
            ("block_expansion_shapes", "expand_block_CanonOrFF", None),
            ("aseeds_expansion_complete", "expand_aseeds_MinFound", None),
            ("aseeds_expansion_leaves_minimal", "expand_aseeds_LeafOK", None),
-           ("work_list_descent", "min_good_found", None)],
+           ("work_list_descent", "min_good_found", None),
+           ("scc_components", "source_sccs_spec", "source SCCs: non-empty, closed under regulators, duplicate-free, strongly connected"),
+           ("scc_components_disjoint", "source_sccs_disjoint", None),
+           ("scc_graft_trap", "graft_trap", "a trap space of the component sub-network grafted onto the attach space is a trap space of the network"),
+           ("scc_expansion_trap_nodes", "expand_scc_TrapNodes", None),
+           ("scc_expansion_grows", "expand_scc_grows", None)],
  examples=EX_NET + """
 Example C03_example : length (min_traps_b ex_sw (top_space 4)) = 4.
 Proof. vm_compute. reflexivity. Qed.
@@ -172,11 +179,17 @@ d's variables turned into constants.  override_forces is the semantic core: if t
 influence (percolation in the ORIGINAL network) of the previous trap space plus the override contains the
 motif, then in the OVERRIDDEN network every attractor reachable from the previous trap space has the
 motif's values.  find_drivers_force: every reported driver set forces.  forced_b is the brute-force
-decision procedure run on the implementation's interventions.""",
+decision procedure run on the implementation's interventions.  succession_control_sound is the property end to end:
+for every intervention reported successful on a diagram prepared by the target-directed expansion, the succession is a
+chain of nested trap spaces from the whole state space, every listed override has the step's motif in its LDOI and
+forces it, the final trap space meets the target and every minimal trap space inside it lies inside the target.""",
  theorems=[("override_forces", "override_forces", None), ("override_forces_code", "override_forces_code", None),
            ("find_drivers_force", "find_drivers_force", None), ("forced_b_spec", "forced_b_spec", None),
            ("find_drivers_avoid_assume", "find_drivers_avoid_assume", "a reported driver never contradicts values already fixed"),
-           ("percolation_of_trap_is_nested_trap", "percolate_b_trap", "each step of a succession is a trap space nested in the previous one")],
+           ("percolation_of_trap_is_nested_trap", "percolate_b_trap", "each step of a succession is a trap space nested in the previous one"),
+           ("succession_control_sound", "succession_control_sound", "C06 end to end"),
+           ("target_expansion_prepares", "target_expansion_TargetExpanded", "the target-directed expansion of a fresh diagram establishes the hypotheses"),
+           ("chain_follows_path", "chain_follows_path", "the accumulated assumptions are the node spaces along the path")],
  examples="")
 
 SPEC["C07"] = dict(title="Control output is complete, minimal and honours the user's constraints", comment="""
